@@ -726,6 +726,35 @@ def mass_scan_cases(ctx, rnd, n):
     return fails
 
 
+def unit_scale_known_case(ctx):
+    """OPEN known finding (hunt2 C11 finding 1): Vector3.cross_unit decides "collinear" by the ABSOLUTE test |a x b| < 1e-14 on
+    un-normalised momenta, so the helicity-angle round trip depends on the unit of mass: with every mass scaled by 1e-8
+    (angles and mass ratios unchanged) the sub-decay angles of A -> (B C) D come back wrong by O(1).  One fixed reproducer;
+    the regular stream keeps masses of order 0.05..20."""
+    chains = [ch for ch in all_chains(3)]
+    ch = chains[0]
+    tree = build_tree(ch)
+    rnd = random.Random(20261001)
+    mass = gen_masses(rnd, tree, False)
+    cost, phi = gen_angles(rnd, len(list(ch)), False)
+    out = []
+    for scale in (1.0, 1e-8):
+        m = {k: v * scale for k, v in mass.items()}
+        try:
+            f = chain_case(ctx, Cases(ctx), "unit%g" % scale, ch, m, cost, phi, rt_tol=1e-9, coq=False)
+        except Exception as e:
+            f = [dict(layer="R.exception", what=repr(e), input={})]
+        f = [x for x in f if x["layer"].startswith("R.")]
+        ctx.count("unit_scale_%g" % scale)
+        ctx.evaluations += 1
+        if f:
+            out.append(dict(layer="R.unit_scale", case="unit%g" % scale, what="masses scaled by %g: %s" % (scale, f[0]["what"]),
+                            input={"function": "HelicityAngle round trip", "chain": shape_str(tree), "mass_scale": scale, "mass": {str(k): v for k, v in m.items()}, "costheta": cost, "phi": phi},
+                            site="Vector3.cross_unit absolute collinearity threshold" if scale != 1.0 else "HelicityAngle round trip",
+                            fingerprint="unit_scale:cross_unit_threshold" if scale != 1.0 else "R.unit_scale"))
+    return out
+
+
 def dalitz_direct(m0, m1, m2, m3, s12, s23, ps):
     def m2_(p):
         return p[0] ** 2 - p[1] ** 2 - p[2] ** 2 - p[3] ** 2
@@ -824,6 +853,7 @@ def run(ctx):
     ctx.log("chain goals", len(cs.items))
     pyfails += dalitz_cases(ctx, rnd, cs, 9 if quick else 81)
     pyfails += mass_scan_cases(ctx, random.Random(ctx.seed * 1000003 + 1111), 4 if quick else 40)
+    pyfails += unit_scale_known_case(ctx)
     ctx.log("all goals", len(cs.items), "python-level failures", len(pyfails))
     # direct round trips only (no Coq goals), more topologies: every topology in thorough
     extra = Cases(ctx)
@@ -856,8 +886,8 @@ def run(ctx):
                      inp={k: v for k, v in meta.items()}, site=meta["function"].split(" ")[0], fingerprint=meta["layer"], failing_input=None)
     for f in pyfails:
         fi = dict(f["input"], what=f["what"], layer=f["layer"]) if f["layer"].startswith("R.") else None
-        ctx.fail(f["layer"], f.get("case", "?"), f["what"], inp=f["input"], site="HelicityAngle round trip" if f["layer"] != "R.dalitz" else "Dalitz.generate_p",
-                 fingerprint=f["layer"], failing_input=fi)
+        ctx.fail(f["layer"], f.get("case", "?"), f["what"], inp=f["input"], site=f.get("site") or ("HelicityAngle round trip" if f["layer"] != "R.dalitz" else "Dalitz.generate_p"),
+                 fingerprint=f.get("fingerprint") or f["layer"], failing_input=fi)
     return common.finish(ctx, search=search, technique=TECHNIQUE, extra_assumptions=[
         "real-number model; float rounding absorbed by rtol 1e-11 (boosts with |v| > 0.99: 1e-7; angles: atol 1e-10 + 1e-14/sin(beta))",
         "exact Lorentz-boost theorems exclude the code's gamma2 guard 0 < |v|^2 <= 1e-14 (deviation <= |v|^3 |p|/2 ~ 5e-22 |p|) and the cross_unit fallback |a x b| < 1e-14; both branches are tied numerically",
